@@ -20,6 +20,11 @@ CORE = ("node-shutdown", "node-startup", "node-reset", "node-service-stop", "nod
         "node-application-execute", "node-folder-restore", "node-account-change-password")
 
 
+TAP_INTERFERENCE = ("node-application-remove", "node-shutdown", "node-application-close", "router-acl-add-rule", "firewall-acl-add-rule",
+                    "host-nic-disable", "node-service-stop", "node-file-delete", "node-account-change-password",
+                    "node-session-remote-logoff", "node-application-install")
+
+
 class Adapter(EE.EnvAdapter):
     """Default script for deviation mode: do-nothing; one step past truncation, then reset."""
 
@@ -73,9 +78,19 @@ def scenarios(tier):
     S.append(("data_manipulation", HE.SHIPPED["data_manipulation"], "dev", dict(H=24 if tier == "thorough" else 6, k=1, reset_seed=None)))
     S.append(("uc7", HE.SHIPPED["uc7"], "dev", dict(H=12 if tier == "thorough" else 2, k=1, reset_seed=None)))
     S.append(("uc7_tap003", HE.SHIPPED["uc7_tap003"], "dev", dict(H=12 if tier == "thorough" else 2, k=1, reset_seed=None)))
-    for name in ("sched_uc7_variants", "sched_placeholders", "sched_mini"):
-        S.append((name, HE.SHIPPED[name], "dev", dict(H=8 if tier == "thorough" else 3, k=1 if tier == "thorough" else 0, reset_seed=None,
-                                                     multi_reset=True)))
+    # episode schedules: the default script alternates one step and a reset, long enough to go through every episode of the
+    # schedule more than twice (the scheduler loops back when the schedule runs out). lengths: mini 2, placeholders 4, uc7 variants 20
+    for name, n_ep in (("sched_mini", 2), ("sched_placeholders", 4), ("sched_uc7_variants", 20)):
+        if name == "sched_uc7_variants" and tier != "thorough":
+            S.append((name, HE.SHIPPED[name], "dev", dict(H=4, k=0, reset_seed=None, multi_reset=True)))
+            continue
+        S.append((name, HE.SHIPPED[name], "dev", dict(H=2 * (2 * n_ep + 2), k=1 if tier == "thorough" and n_ep < 20 else 0,
+                                                     reset_seed=None, multi_reset=True)))
+    if tier == "thorough":
+        # a whole threat-actor kill chain with one blue interference at any step (the attack's late stages run code that
+        # nothing else reaches)
+        for scen in ("uc7", "uc7_tap003"):
+            S.append((scen + "-long", HE.SHIPPED[scen], "dev", dict(H=110, k=1, reset_seed=None, core=True, core_names=TAP_INTERFERENCE)))
     return S
 
 
@@ -88,7 +103,7 @@ def make_adapter(name, cfg, p, oracles):
         # episode-scheduled scenarios: the default script resets after every second step so that several episodes of
         # the schedule are crossed inside a short horizon
         def default_event(s, t, ad=ad):
-            if s.steps >= 2:
+            if s.steps >= 1:
                 return ("reset", None)
             return ("a", 0)
 
@@ -97,6 +112,8 @@ def make_adapter(name, cfg, p, oracles):
 
 
 def _cfg_for(name):
+    if name.endswith("-long"):
+        name = name[:-5]
     for v in HE.GEN:
         if name == v["name"] or name == v["name"] + "-k2":
             return HE.gen_scenario(v)
